@@ -125,6 +125,8 @@ def required_vehicles_pairing(ctx, rid="R2"):
 
 def rules(ctx):
     fd, edges = flownet.edge_sites(ctx)
+    flownet.need(ctx, "R1.trip-upper-bound", edges, "trip", "upper_bound", [call(MFC)],
+                 "a trip can carry as many vehicles as its applicable formation limit allows (riding along covers demand elsewhere)")
     flownet.need(ctx, "R1.trip-lower-bound", edges, "trip", "lower_bound", [call(REQ), call(MFC), "param:2"],
                  "trip edges must carry min(required vehicles, applicable formation limit of that trip)")
     required_vehicles_pairing(ctx)
